@@ -233,7 +233,8 @@ def compile_pat(src: str, mode: str = "auto") -> ast.AST:
     k = (src, mode)
     if k in _CACHE:
         return _CACHE[k]
-    tree = ast.parse(src.strip())
+    from .canon import canon
+    tree = canon(ast.parse(src.strip()), statements=False)
     node: ast.AST
     if len(tree.body) == 1:
         node = tree.body[0]
@@ -379,7 +380,8 @@ class Snips:
 
     def conv(self, src: str) -> ast.AST:
         if src not in self._pc:
-            tree = ast.parse(src.strip())
+            from .canon import canon
+            tree = canon(ast.parse(src.strip()), statements=False)
             tree = _Conv(self.literals).visit(tree)
             node: ast.AST = tree.body[0] if len(tree.body) == 1 else tree
             if isinstance(node, ast.Expr):
